@@ -313,13 +313,19 @@ def optIntStr : Option Int → String
 
 def driveGlue (toks : List String) : String :=
   match toks with
-  | "glue.builder" :: counters :: capacity :: weight :: "|" :: chain =>
-    (match counters.toNat?, capacity.toNat?, parseInt? weight, (chain.filter (· ≠ "")).mapM Glue.parseSetter? with
-     | some c, some cap, some w, some setters =>
-       (match (Glue.Builder.new c cap w).bind (fun b => b.run setters) with
+  | ["glue.defaults", pool, buf, cmd, shards, tick] =>
+    (match pool.toNat?, buf.toNat?, cmd.toNat?, shards.toNat?, tick.toNat? with
+     | some a, some b, some c, some d, some e =>
+       let dflt : Glue.Defaults := { pool := a, buf := b, cmd := c, shards := d, tickNs := e }
+       if dflt.ok then "R defaults ok" else "R defaults not-acceptable-to-the-setters"
+     | _, _, _, _, _ => "R bad-pure-line")
+  | "glue.builder" :: dflt :: counters :: capacity :: weight :: "|" :: chain =>
+    (match parseNatList? (kvOf dflt).2, counters.toNat?, capacity.toNat?, parseInt? weight, (chain.filter (· ≠ "")).mapM Glue.parseSetter? with
+     | some [a, b, c0, d0, e], some c, some cap, some w, some setters =>
+       (match (Glue.Builder.newWith { pool := a, buf := b, cmd := c0, shards := d0, tickNs := e } c cap w).bind (fun b => b.run setters) with
         | some b => "R " ++ b.str
         | none => "R panic")
-     | _, _, _, _ => "R bad-pure-line")
+     | _, _, _, _, _ => "R bad-pure-line")
   | "glue.new" :: fields =>
     (match Glue.parseBuilder? fields with
      | some b =>
@@ -373,6 +379,7 @@ def drivePure (toks : List String) : String :=
      | _, _ => "R bad-pure-line")
   | ["ratio", _, _] => "R ratio ok"
   | "glue.builder" :: _ => driveGlue toks
+  | "glue.defaults" :: _ => driveGlue toks
   | "glue.new" :: _ => driveGlue toks
   | "glue.upsert" :: _ => driveGlue toks
   | "glue.weight" :: _ => driveGlue toks
